@@ -187,7 +187,7 @@ check_dft(const json& c)
   // for a real array of (even) length 2, which fourier_for_real_data accepts
   if (x.len[2] == 2 && !no_exclude())
     {
-      vf::stats().count("excluded:C19:F4:inverse_fourier_for_real_data with last-dimension length 2 (clause skipped)");
+      vf::stats().count("excluded:C19:F4:inverse real-data transform with last-dimension length 2");
       return Result::pass();
     }
   {
